@@ -483,6 +483,26 @@ def big_cases(rng, k):
         yield dict(consumers=1 + i % 3, net=i % len(NETS), batches=rebatch(rng, frames, mode=["one", "single", "random"][i % 3]))
 
 
+def burst_cases(rng, sizes):
+    """a burst of many frames in ONE chunk while every consumer is held up (the first batch arrives while the
+    controller's device class is still being loaded): every received frame is queued — the read queue is not a
+    place where frames get lost, however many pile up in front of the consumers"""
+    for i, size in enumerate(sizes):
+        frames, mk = [], 0
+        while len(frames) < size:
+            r = rng.random()
+            if r < 0.78:
+                frames.append(marker(mk)); mk += 1
+            elif r < 0.90:
+                frames.append(rng.choice([F(CD_REQ), F(PV_REQ)]))
+            elif r < 0.96:
+                frames.append(undecodable(rng, kinds=[k for k in DATA_KINDS if k not in STATEFUL]))
+            else:
+                frames.append(skipped(rng))
+        tail = [marker(mk), F(CD_REQ), marker(mk + 1)]
+        yield dict(consumers=1 + i % 3, net=i % len(NETS), batches=[frames, tail], hold=True)
+
+
 def random_net(rng):
     def ip():
         return ".".join(str(rng.randrange(256)) for _ in range(4))
@@ -624,11 +644,12 @@ def run(ctx):
                 "decodable kind cut at truncation points, random payloads, out-of-table ids (schema type >= 17, schedule >= 40, "
                 "31-day-month alert dates, counts beyond the payload), controller requests 64/48 (and from ecoSTER / addresses "
                 "without a device class), other requests, frames the reader rejects; bursts of undecodable frames larger than the "
-                "consumer pool, followed by valid marker frames; maximum-length (1000-byte) frames, decodable and not, carrying a complete small frame near their tail. distinct = (consumers, network, classified sequence, payloads); "
+                "consumer pool, followed by valid marker frames; maximum-length (1000-byte) frames, decodable and not, carrying a complete small frame near their tail; bursts of 35..2200 frames in one chunk while all consumers are held up in the first device creation. distinct = (consumers, network, classified sequence, payloads); "
                 "non-trivial = at least one raising frame together with a valid frame or a controller request")
     cases = [parse_case(ln) for _, ln in load_corpus("C09")]
     cases.extend(big_cases(random.Random(1000), 6))            # maximum-length frames (boundary of the reader's length gate)
     cases.extend(big_cases(rng, 30 if ctx["tier"] == "quick" else 300))
+    cases.extend(burst_cases(rng, [40, 60, 130, 150, 1100] if ctx["tier"] == "quick" else [35, 40, 60, 110, 130, 150, 300, 700, 1100, 2200]))
     if ctx["tier"] == "thorough":
         cases.extend(truncation_cases(rng, "all"))
         for _ in range(15000):
